@@ -113,6 +113,59 @@ func loadProg(dir string, tags string, extraEnv []string) (*Prog, error) {
 	p.indexFuncs()
 	p.buildCallGraph()
 	p.buildSummaries()
+	// from here on a local whose address is only handed to read-only repo functions (value
+	// receivers spilled for a pointer-receiver accessor, `x.IsEmpty()`) stays under the function's
+	// control; per-function facts computed before the summaries existed are recomputed
+	strict := map[*ssa.Function]int{} // 0 unknown, 1 in progress / pure, 2 impure
+	var strictPure func(f *ssa.Function, depth int) bool
+	strictPure = func(f *ssa.Function, depth int) bool {
+		if f == nil || f.Blocks == nil || !p.inRepo(f) || depth > 6 {
+			return false
+		}
+		switch strict[f] {
+		case 1:
+			return true
+		case 2:
+			return false
+		}
+		strict[f] = 1
+		okv := p.readOnly(f)
+		for _, b := range f.Blocks {
+			for _, in := range b.Instrs {
+				switch x := in.(type) {
+				case *ssa.Store:
+					// not even a lazily filled cache: nothing is written through a pointer
+					if _, isAlloc := baseOfAddr(x.Addr).(*ssa.Alloc); !isAlloc {
+						okv = false
+					}
+				case *ssa.MapUpdate, *ssa.Send, *ssa.Go, *ssa.Defer:
+					okv = false
+				case ssa.CallInstruction:
+					g := x.Common().StaticCallee()
+					switch {
+					case g == nil:
+						if _, isBuiltin := x.Common().Value.(*ssa.Builtin); !isBuiltin {
+							okv = false
+						}
+					case p.inRepo(g) && g.Blocks != nil:
+						if !strictPure(g, depth+1) {
+							okv = false
+						}
+					default:
+						if !pureExternal(g) {
+							okv = false
+						}
+					}
+				}
+			}
+		}
+		if !okv {
+			strict[f] = 2
+		}
+		return okv
+	}
+	readOnlyHook = func(f *ssa.Function) bool { return strictPure(f, 0) }
+	finfoCache = map[*ssa.Function]*funcInfo{}
 	return p, nil
 }
 
